@@ -217,14 +217,18 @@ def _custom_syms():
     return _CUSTOM
 
 
-def _custom_run(N, blocks, kw):
-    """fuse / unfuse / svd / tensordot where the group law (mod N) decides the fused charges."""
+def _custom_run(N, blocks, kw, symcls=None):
+    """fuse / unfuse / svd / tensordot where the group law (mod N; N = 0 for U1) decides the fused charges."""
     import yastn
-    cfg = yastn.make_config(sym=_custom_syms()[N], **kw)
+    cfg = yastn.make_config(sym=symcls if symcls is not None else _custom_syms()[N], **kw)
     a = yastn.Tensor(config=cfg, s=(1, 1, -1, -1), n=0)
+    b = yastn.Tensor(config=cfg, s=(1, 1, -1, -1), n=1)
     for ts, Ds, val in blocks:
-        if (ts[0] + ts[1] - ts[2] - ts[3]) % N == 0:
+        d = ts[0] + ts[1] - ts[2] - ts[3]
+        if (d % N == 0) if N else (d == 0):
             a.set_block(ts=ts, Ds=Ds, val=val)
+        if ((d - 1) % N == 0) if N else (d == 1):
+            b.set_block(ts=ts, Ds=Ds, val=val)
     out = [raw(a)]
     f = a.fuse_legs(axes=((0, 1), (2, 3)), mode="hard")
     out.append(raw(f))
@@ -233,7 +237,61 @@ def _custom_run(N, blocks, kw):
     out += [raw(S), raw(U @ S @ V)]
     out.append(raw(yastn.tensordot(a, a, axes=((2, 3), (0, 1)))))
     out.append(raw(yastn.tensordot(f, f.conj(), axes=(1, 1))))
+    # charged operands: the total charge of the results is a sum taken by the group law of THIS symmetry
+    if b.size:
+        out.append(raw(yastn.tensordot(b, b, axes=((2, 3), (0, 1)))))
+        out.append(raw(yastn.tensordot(b, a, axes=((2, 3), (0, 1))).conj()))
+        out.append(complex(yastn.vdot(b, b)))
+        out.append(raw(b.add_leg(axis=0, s=1).conj()))
     return out
+
+
+def _fresh_family(style):
+    """Newly created class objects (a user's module imported afresh): {N: class}; key 'parent' is the class they derive from."""
+    import yastn
+    if style == "abelian-root":
+        class sym_ZN(yastn.sym.sym_abelian):
+            SYM_ID = "ZNf"
+            NSYM = 1
+            N = 6          # the charges 0..3 used below are canonical for the root and for both children
+
+            @classmethod
+            def fuse(cls, charges, signatures, new_signature):
+                return np.mod(new_signature * (charges.swapaxes(1, 2) @ signatures), cls.N)
+        parent, parentN = sym_ZN, 6
+    else:
+        parent, parentN = yastn.sym.sym_U1, 0      # a user symmetry written by deriving from a built-in one
+
+    def mk(n):
+        class sym_Zn(parent):
+            SYM_ID = f"Z{n}d"
+            N = n
+
+            @classmethod
+            def fuse(cls, charges, signatures, new_signature):
+                return np.mod(new_signature * (charges.swapaxes(1, 2) @ signatures), n)
+        return sym_Zn
+    return {"parent": parent, "parentN": parentN, 4: mk(4), 5: mk(5)}
+
+
+def derived_sym_histories(ctx, rng, blocks, kw):
+    """A symmetry class derived from another USABLE class: its results must not depend on whether the parent class (or a
+    sibling) was used before it.  Cold reference and warm history use separately created, textually identical classes."""
+    style = rng.choice(("builtin-parent", "builtin-parent", "abelian-root"))
+    child = rng.choice((4, 5))
+    fam_cold, fam_warm = _fresh_family(style), _fresh_family(style)
+    cold = _custom_run(child, blocks, kw, symcls=fam_cold[child])
+    _custom_run(fam_warm["parentN"], blocks, kw, symcls=fam_warm["parent"])
+    if rng.random() < 0.5:
+        _custom_run(9 - child, blocks, kw, symcls=fam_warm[9 - child])
+    warm = _custom_run(child, blocks, kw, symcls=fam_warm[child])
+    ctx.count("derived_symmetry_histories")
+    ctx.count("histories_compared")
+    if warm != cold:
+        k = next((i for i, (x, y) in enumerate(zip(cold, warm)) if x != y), min(len(cold), len(warm)))
+        ctx.violation("cache-history-dependence:derived-symmetry-class",
+                      f"user-defined Z{child} class derived from {'yastn.sym.sym_U1' if style == 'builtin-parent' else 'a usable user class'}: "
+                      f"result {k} of the same operations differs between a history where the child is used first and one where the parent class is used first")
 
 
 def custom_sym_twins(ctx, rng, nprng, kw):
@@ -254,6 +312,7 @@ def custom_sym_twins(ctx, rng, nprng, kw):
         warm = _custom_run(second, blocks, kw)
     finally:
         yastn.set_cache_maxsize(1024)
+    derived_sym_histories(ctx, rng, blocks, kw)
     ctx.count("custom_symmetry_twins")
     ctx.count("histories_compared")
     if warm != cold[second]:
